@@ -375,7 +375,8 @@ def gen_trait_method(rng, name):
 def gen_trait(rng):
     name = rng.choice(TRAIT_NAMES)
     v = rng.choice(["", "pub ", "pub(crate) "])
-    g = rng.choice(["", "", "", "<T>", "<'a, T: Clone>", "<T, U = i32>", "<const N: usize>", "<T,>"])
+    g = rng.choice(["", "", "", "<T>", "<'a, T: Clone>", "<T, U = i32>", "<const N: usize>", "<T,>",
+                    "<const N: usize, T>", "<T, const N: usize, U>", "<'a, 'b: 'a, T: 'a>", "<K, V>", "<const A: usize, const B: bool>"])
     sup = rng.choice(["", "", ": 'static", ": Sync + 'static", ": Clone + Send", ": core::fmt::Debug +"])
     w = rng.choice(["", "", ""]) if not g else rng.choice(["", " where T: Send", " where T: Send,"])
     attrs = ""
@@ -537,6 +538,29 @@ def fam_c17(rng, n_groups):
     out = []
     gid = 0
     keys = ["no_deps", "export", "unimock", "mockall", "?Send", "mock_api = M"]
+    tkeys = ["mockall", "unimock", "?Send", "mock_api = M", "delegate_by = ref", "debug = false"]
+    titem = "trait Foo { fn foo(&self, a: i32) -> i32; fn bar(&self); }"
+    for _ in range(max(1, n_groups // 3)):
+        gid += 1
+        subset = [k for k in tkeys if rng.random() < 0.5]
+        if len(subset) < 2:
+            subset = ["mockall", "delegate_by = ref"]
+        kind = rng.choice(["order", "order", "bare_true"])
+        if kind == "order":
+            perms = [subset[:], subset[::-1]]
+            p = subset[:]
+            rng.shuffle(p)
+            perms.append(p)
+            # a bare option first, then the rest
+            bare = [k for k in subset if "=" not in k and k != "?Send"]
+            if bare:
+                perms.append([bare[0]] + [k for k in subset if k != bare[0]])
+            for p in perms:
+                out.append(Case("c17", ", ".join(p), titem, pair=(gid, "eq")))
+        else:
+            bools = [k for k in subset if "=" not in k and k != "?Send"]
+            out.append(Case("c17", ", ".join(subset), titem, pair=(gid, "eq")))
+            out.append(Case("c17", ", ".join((k + " = true" if k in bools else k) for k in subset), titem, pair=(gid, "eq")))
     for _ in range(n_groups):
         gid += 1
         mode = rng.choice(["fn", "fn_async", "mod", "fn"])
